@@ -22,6 +22,10 @@ OptSelTag = TOpt(SelTag)
 SeqSelList = TSeq(SelList)
 SeqSelNth = TSeq(SelNth)
 SeqStr = TSeq(STR)
+SeqSelAttr = TSeq(SelAttr)
+SeqSelLang = TSeq(SelLang)
+SeqSelContains = TSeq(SelContains)
+OptInt = TOpt(INT)
 
 
 # ---------------------------------------------------------------------------------------------- node kinds
@@ -174,7 +178,7 @@ def sem_classes(m: M, el: Node, classes: SeqStr) -> bool:
 
 
 @abstract
-def sem_attrs(m: M, ns: NsMap, el: Node, s: Sel) -> bool:
+def sem_attrs(m: M, ns: NsMap, el: Node, attrs: SeqSelAttr) -> bool:
     return True
 
 
@@ -184,7 +188,7 @@ def sem_range(m: M, el: Node, cond: Flags) -> bool:
 
 
 @abstract
-def sem_lang(m: M, el: Node, s: Sel) -> bool:
+def sem_lang(m: M, el: Node, langs: SeqSelLang) -> bool:
     return True
 
 
@@ -204,7 +208,7 @@ def sem_dir(m: M, el: Node, d: Flags) -> bool:
 
 
 @abstract
-def sem_contains(m: M, el: Node, s: Sel) -> bool:
+def sem_contains(m: M, el: Node, contains: SeqSelContains) -> bool:
     return True
 
 
@@ -254,15 +258,15 @@ def sem_sel(m: M, ns: NsMap, ifr: bool, el: Node, s: Sel) -> bool:
             and ((s.flags & SEL_EMPTY) == 0 or sem_empty(m, el))
             and (len(s.ids) == 0 or sem_ids(m, el, s.ids))
             and (len(s.classes) == 0 or sem_classes(m, el, s.classes))
-            and sem_attrs(m, ns, el, s)
+            and sem_attrs(m, ns, el, s.attributes)
             and ((s.flags & RANGES) == 0 or sem_range(m, el, s.flags & RANGES))
-            and (len(s.lang) == 0 or sem_lang(m, el, s))
+            and (len(s.lang) == 0 or sem_lang(m, el, s.lang))
             and all_subs(m, ns, ifr, el, s.selectors, 0)
             and (len(s.relation.selectors) == 0 or sem_rel(m, ns, ifr, el, s.relation))
             and ((s.flags & SEL_DEFAULT) == 0 or sem_default(m, el))
             and ((s.flags & SEL_INDETERMINATE) == 0 or sem_indeterminate(m, el))
             and ((s.flags & DIR_FLAGS) == 0 or sem_dir(m, el, s.flags & DIR_FLAGS))
-            and (len(s.contains) == 0 or sem_contains(m, el, s)))
+            and (len(s.contains) == 0 or sem_contains(m, el, s.contains)))
 
 
 def all_subs(m: M, ns: NsMap, ifr: bool, el: Node, subs: SeqSelList, i: int) -> bool:
@@ -346,3 +350,80 @@ def is_root_el(m: M, el: Node) -> bool:
         return True
     p = parent(el)
     return p is not None and m.is_html and is_iframe_el(m, p)
+
+
+def sel_from(m: M, ns: NsMap, ifr: bool, seq: SeqNode, i: int, lim: OptInt) -> SeqNode:
+    """select(): the matching nodes of seq from position i on, in order, at most lim of them when lim is given."""
+    if i < 0 or i >= len(seq):
+        return []
+    if matches(m, ns, ifr, seq[i]):
+        if lim is not None and lim - 1 < 1:
+            return [seq[i]]
+        return [seq[i]] + sel_from(m, ns, ifr, seq, i + 1, None if lim is None else lim - 1)
+    return sel_from(m, ns, ifr, seq, i + 1, lim)
+
+
+def closest_from(m: M, ns: NsMap, ifr: bool, n: Node) -> Node:
+    """closest(): n or its nearest ancestor that matches (never the document object: it is not an element)."""
+    if n is None:
+        return None
+    if matches(m, ns, ifr, n):
+        return n
+    return closest_from(m, ns, ifr, parent(n))
+
+
+def filt_from(m: M, ns: NsMap, ifr: bool, seq: SeqNode, i: int) -> SeqNode:
+    """filter(): the matching elements among seq[i:], in order."""
+    if i < 0 or i >= len(seq):
+        return []
+    if is_tag(seq[i]) and matches(m, ns, ifr, seq[i]):
+        return [seq[i]] + filt_from(m, ns, ifr, seq, i + 1)
+    return filt_from(m, ns, ifr, seq, i + 1)
+
+
+def own_contents(m: M, el: Node, no_iframe: bool) -> SeqNode:
+    """get_contents(): the children, none when el is missing or (with no_iframe) an iframe."""
+    if el is None:
+        return []
+    if no_iframe and is_iframe_el(m, el):
+        return []
+    return contents(el)
+
+
+def rel_ok(t: str) -> bool:
+    return (t == ' ' or t == '>' or t == '~' or t == '+' or t == ': ' or t == ':>' or t == ':~' or t == ':+')
+
+
+def ir_wf_list(L: SelList) -> bool:
+    """Reachable-IR well-formedness (DESIGN 4.4): the shape the parser produces.  Matcher contracts quantify over
+    well-formed IR only; the parser side establishes it (bounded: every IR of the corpus and the pre-compiled lists)."""
+    return wf_from(L, 0)
+
+
+def wf_from(L: SelList, i: int) -> bool:
+    if i < 0 or i >= len(L.selectors):
+        return True
+    return ir_wf_sel(L.selectors[i]) and wf_from(L, i + 1)
+
+
+def wf_subs(subs: SeqSelList, i: int) -> bool:
+    if i < 0 or i >= len(subs):
+        return True
+    return ir_wf_list(subs[i]) and wf_subs(subs, i + 1)
+
+
+def wf_nths(nth: SeqSelNth, i: int) -> bool:
+    if i < 0 or i >= len(nth):
+        return True
+    return ir_wf_list(nth[i].selectors) and wf_nths(nth, i + 1)
+
+
+def ir_wf_sel(s: Sel) -> bool:
+    """A compound's relation list has at most one element, which carries one of the eight relation strings;
+    all nested lists are well-formed."""
+    if sel_is_null(s):
+        return True
+    return (len(s.relation.selectors) <= 1 and
+            (len(s.relation.selectors) == 0 or sel_is_null(s.relation.selectors[0]) or
+             (s.relation.selectors[0].rel_type is not None and rel_ok(s.relation.selectors[0].rel_type))) and
+            ir_wf_list(s.relation) and wf_subs(s.selectors, 0) and wf_nths(s.nth, 0))
